@@ -51,7 +51,7 @@ def main() -> None:
                   "design-round text, kept because they explain the approach, with section 4 (C15, C16, C17, C19), 6 and 8\n"
                   "brought up to date. Everything below marked *probed*")
     insert = T("asbuilt_head.md") + T("asbuilt_mid.md") + "\n### 0A.8 Seeded changes and the checks that catch them\n\n" \
-        "One hundred and four changes (two per property in rounds 1 and 2, two for twelve properties in round 3) were written by sub-agents that saw only the property text and a scratch\n" \
+        "One hundred and twenty changes (two per property in rounds 1 and 2, two for twelve properties in round 3, two for the other eight in round 4) were written by sub-agents that saw only the property text and a scratch\n" \
         "worktree, later rounds were asked for mechanisms different from the earlier ones. Each was re-verified here in a\n" \
         "fresh worktree (demo passes on the clean tree, fails on the mutated one, the full suite still passes) before\n" \
         "being kept under `seeded/`. Each was then applied to /repo, the relevant quick items were run, and the patch\n" \
@@ -62,7 +62,7 @@ def main() -> None:
     d = d.replace("(argparse → files → `black` subprocess → exit status): only its deciding\nkernels are checked.",
                   "(argparse → files → `black` → exit status) cannot be *traced*: as built, the whole\nCLI is run natively on solver-chosen inputs (C17, see 0A.2).")
     d = d.replace("**Known state of the pinned tree.** Design probes already reproduced genuine\nviolations of C01, C03, C04/C13, C05, C08, C11, C12, C16, C17, C18, C19 (list in\n§6). They are defects of the library, not of the checks; each will be either\nrepaired by one minimal `fix:` commit or recorded in\n`/verif/known_findings.json` (mechanism in §2.7).",
-                  "**State of the tree.** The checks found 23 genuine defects on the pinned tree; all were repaired by\nminimal `fix:` commits (0A.5). Three further genuine defects are recorded as known findings (0A.6).")
+                  "**State of the tree.** The checks found 23 genuine defects on the pinned tree; all were repaired by\nminimal `fix:` commits (0A.5). Four further genuine defects are recorded as known findings (0A.6).")
     new4 = T("sec4_new.md")
     parts = {}
     for name in ("C15", "C16", "C17", "C19"):
